@@ -178,3 +178,905 @@ Proof.
   - intros Hi. apply (H3 x H). apply in_or_app. now left.
   - intros Hi. apply (H3 x H). apply in_or_app. now right.
 Qed.
+
+(* ---------------------------------------------------------------- list operations *)
+
+Lemma position_split : forall f l i,
+  position f l = Some i ->
+  l = firstn i l ++ skipn i l /\ (forall x, In x (firstn i l) -> f x = false)
+  /\ exists y, hd_error (skipn i l) = Some y /\ f y = true.
+Proof.
+  intros f. induction l as [|x l IH]; intros i H; cbn in H; [discriminate|].
+  destruct (f x) eqn:Ef.
+  - injection H as <-. cbn. split; [reflexivity|]. split; [tauto|eauto].
+  - destruct (position f l) as [j|] eqn:Ej; [|discriminate]. injection H as <-.
+    destruct (IH j eq_refl) as [H1 [H2 H3]]. cbn. split; [now f_equal|]. split; [|exact H3].
+    intros y [<-|Hy]; auto.
+Qed.
+
+Lemma position_none : forall f l, position f l = None -> forall x, In x l -> f x = false.
+Proof.
+  intros f. induction l as [|x l IH]; intros H y Hy; [destruct Hy|]. cbn in H.
+  destruct (f x) eqn:Ef; [discriminate|]. destruct (position f l); [discriminate|].
+  destruct Hy as [<-|Hy]; auto.
+Qed.
+
+Lemma split_at_first_spec : forall f l k p,
+  split_at_first f l = (k, p) ->
+  l = k ++ p /\ (forall x, In x k -> f x = false)
+  /\ (p = [] \/ exists y, hd_error p = Some y /\ f y = true).
+Proof.
+  intros f l k p H. unfold split_at_first in H. destruct (position f l) as [i|] eqn:E.
+  - injection H as <- <-. destruct (position_split f l i E) as [H1 [H2 H3]]. auto.
+  - injection H as <- <-. split; [now rewrite app_nil_r|]. split; [|now left].
+    now apply position_none.
+Qed.
+
+Lemma position_char : forall f l k y,
+  (forall x, In x (firstn k l) -> f x = false) -> hd_error (skipn k l) = Some y -> f y = true ->
+  position f l = Some k.
+Proof.
+  intros f. induction l as [|a l IH]; intros k y H1 H2 H3.
+  - destruct k; discriminate.
+  - destruct k as [|k]; cbn in *.
+    + injection H2 as ->. now rewrite H3.
+    + rewrite (H1 a (or_introl eq_refl)). rewrite (IH k y); auto.
+Qed.
+
+Lemma position_none' : forall f l, (forall x, In x l -> f x = false) -> position f l = None.
+Proof.
+  intros f. induction l as [|a l IH]; intros H; cbn; [reflexivity|].
+  rewrite (H a (or_introl eq_refl)). rewrite IH; [reflexivity|]. intros x Hx. apply H. now right.
+Qed.
+
+(* popping everything from index k on *)
+Lemma split_at_first_skipn : forall l k,
+  NoDup l -> split_at_first (fun n => mem n (skipn k l)) l = (firstn k l, skipn k l).
+Proof.
+  intros l k Hd. unfold split_at_first.
+  destruct (NoDup_firstn_skipn _ k l Hd) as [_ [_ Hdis]].
+  destruct (skipn k l) as [|y r] eqn:Es.
+  - rewrite position_none' by reflexivity. f_equal.
+    rewrite <- (firstn_skipn k l) at 1. rewrite Es. apply app_nil_r.
+  - rewrite (position_char _ l k y).
+    + now rewrite Es.
+    + intros x Hx. apply mem_false. now apply Hdis.
+    + now rewrite Es.
+    + apply mem_In. now left.
+Qed.
+
+Lemma remove_first_filter : forall n l,
+  NoDup l -> remove_first n l = filter (fun x => negb (name_eqb x n)) l.
+Proof.
+  intros n l H. induction H as [|x l Hn Hd IH]; cbn; [reflexivity|].
+  destruct (name_eqb_spec x n) as [->|Hx]; cbn.
+  - symmetry. apply filter_all. intros y Hy. apply negb_true_iff. apply name_eqb_neq. congruence.
+  - now rewrite IH.
+Qed.
+
+Lemma remove_first_perm : forall n l, In n l -> Permutation (n :: remove_first n l) l.
+Proof.
+  intros n. induction l as [|x l IH]; intros H; [destruct H|]. cbn.
+  destruct (name_eqb_spec x n) as [->|Hx]; [reflexivity|].
+  destruct H as [->|H]; [congruence|]. eapply Permutation_trans; [apply perm_swap|].
+  constructor. now apply IH.
+Qed.
+
+Lemma filter_filter : forall (A : Type) (f g : A -> bool) l,
+  filter f (filter g l) = filter (fun x => g x && f x) l.
+Proof.
+  intros A f g l. induction l as [|x l IH]; cbn; [reflexivity|].
+  destruct (g x); cbn; [destruct (f x)|]; now rewrite IH.
+Qed.
+
+Lemma cpl_firstn : forall a b,
+  firstn (common_prefix_len a b) a = firstn (common_prefix_len a b) b.
+Proof.
+  induction a as [|x a IH]; intros [|y b]; cbn; try reflexivity.
+  destruct (name_eqb_spec x y) as [->|H]; cbn; [now rewrite IH|reflexivity].
+Qed.
+
+Lemma cpl_le : forall a b, (common_prefix_len a b <= length b)%nat /\ (common_prefix_len a b <= length a)%nat.
+Proof.
+  induction a as [|x a IH]; intros [|y b]; cbn; try lia.
+  destruct (name_eqb x y); cbn; [|lia]. destruct (IH b). lia.
+Qed.
+
+Lemma perm_filter_in : forall (ps l : list name),
+  NoDup ps -> NoDup l -> incl ps l -> Permutation ps (filter (fun n => mem n ps) l).
+Proof.
+  intros ps l H1 H2 Hi. apply NoDup_Permutation; [exact H1|now apply NoDup_filter|].
+  intros x. rewrite filter_In, mem_In. split; [|tauto]. intros Hx. split; [now apply Hi|exact Hx].
+Qed.
+
+(* ---------------------------------------------------------------- pop / delete *)
+
+Lemma pop_spec : forall f t t' inc,
+  pop_patches f t = (t', inc) ->
+  exists keep popped,
+    split_at_first f (t_applied t) = (keep, popped)
+    /\ t_applied t = keep ++ popped
+    /\ t' = set_lists t keep (filter (fun n => negb (f n)) popped ++ filter f popped ++ t_unapplied t)
+                      (t_hidden t)
+    /\ inc = filter (fun n => negb (f n)) popped.
+Proof.
+  intros f t t' inc H. unfold pop_patches in H.
+  destruct (split_at_first f (t_applied t)) as [keep popped] eqn:E. injection H as <- <-.
+  exists keep, popped. split; [reflexivity|]. split; [|split; reflexivity].
+  now apply split_at_first_spec in E as [E _].
+Qed.
+
+Lemma pop_perm : forall (f : name -> bool) keep popped u h,
+  Permutation (keep ++ (filter (fun n => negb (f n)) popped ++ filter f popped ++ u) ++ h)
+              ((keep ++ popped) ++ u ++ h).
+Proof.
+  intros f keep popped u h. rewrite <- !app_assoc. apply Permutation_app_head.
+  rewrite !app_assoc. do 2 apply Permutation_app_tail. apply filter_perm'.
+Qed.
+
+Lemma pop_wf : forall f t t' inc,
+  wf_txn t -> pop_patches f t = (t', inc) -> wf_txn t' /\ Permutation (t_all t') (t_all t).
+Proof.
+  intros f t t' inc W H. apply pop_spec in H as [keep [popped [_ [Ha [-> _]]]]].
+  assert (Hp : Permutation (keep ++ (filter (fun n => negb (f n)) popped ++ filter f popped ++ t_unapplied t)
+                              ++ t_hidden t) (t_all t)).
+  { unfold t_all. rewrite Ha. apply pop_perm. }
+  split; [now apply wf_txn_lists|exact Hp].
+Qed.
+
+Lemma delete_spec : forall f t t' inc,
+  delete_patches f t = (t', inc) ->
+  exists keep popped,
+    split_at_first f (t_applied t) = (keep, popped)
+    /\ t_applied t = keep ++ popped
+    /\ t' = set_updated
+              (set_lists t keep (filter (fun n => negb (f n)) popped ++ filter (fun n => negb (f n)) (t_unapplied t))
+                         (filter (fun n => negb (f n)) (t_hidden t)))
+              (mark_deleted (t_updated t)
+                 (filter f popped ++ filter f (t_unapplied t) ++ filter f (t_hidden t)))
+    /\ inc = filter (fun n => negb (f n)) popped.
+Proof.
+  intros f t t' inc H. unfold delete_patches in H.
+  destruct (split_at_first f (t_applied t)) as [keep popped] eqn:E. injection H as <- <-.
+  exists keep, popped. split; [reflexivity|]. split; [|split; reflexivity].
+  now apply split_at_first_spec in E as [E _].
+Qed.
+
+Lemma delete_wf : forall f t t' inc,
+  wf_txn t -> delete_patches f t = (t', inc) ->
+  wf_txn t' /\ NoDup inc /\ incl inc (t_unapplied t').
+Proof.
+  intros f t t' inc W H. apply delete_spec in H as [keep [popped [Es [Ha [-> ->]]]]].
+  apply split_at_first_spec in Es as [_ [Hk _]].
+  set (nf := fun n => negb (f n)).
+  assert (Hall : keep ++ (filter nf popped ++ filter nf (t_unapplied t)) ++ filter nf (t_hidden t)
+                 = filter nf (t_all t)).
+  { unfold t_all. rewrite Ha, !filter_app. rewrite <- !app_assoc. f_equal.
+    symmetry. apply filter_all. intros x Hx. unfold nf. now rewrite (Hk x Hx). }
+  assert (Hdel : forall n, mem n (filter f popped ++ filter f (t_unapplied t) ++ filter f (t_hidden t)) = true
+                           <-> In n (t_all t) /\ f n = true).
+  { intros n. rewrite mem_In. unfold t_all. rewrite Ha, !in_app_iff, !filter_In. split.
+    - tauto.
+    - intros [[[H1|H1]|[H1|H1]] H2]; auto. rewrite (Hk n H1) in H2. discriminate. }
+  pose proof (names_disjoint t (wt_names t W)) as [Hda _]. rewrite Ha in Hda.
+  apply NoDup_app_iff in Hda as [_ [Hdp _]].
+  split; [|split].
+  - apply (wf_txn_change t); try reflexivity; try exact W.
+    + unfold t_all. rewrite t_applied_set_updated, t_unapplied_set_updated, t_hidden_set_updated,
+        t_applied_set_lists, t_unapplied_set_lists, t_hidden_set_lists. rewrite Hall.
+      apply (names_ok_sub (t_all t)); [apply W|apply NoDup_filter; apply W|].
+      intros x Hx. now apply filter_In in Hx.
+    + intros n. unfold t_all at 1.
+      rewrite t_applied_set_updated, t_unapplied_set_updated, t_hidden_set_updated,
+        t_applied_set_lists, t_unapplied_set_lists, t_hidden_set_lists. rewrite Hall.
+      match goal with |- _ <-> t_patch (set_updated ?t0 (mark_deleted _ ?d)) n <> None =>
+        change (t_patch (set_updated t0 (mark_deleted (t_updated t) d)) n)
+          with (t_patch (set_updated t (mark_deleted (t_updated t) d)) n) end.
+      rewrite t_patch_mark_deleted, filter_In. unfold nf. rewrite negb_true_iff.
+      destruct (mem n _) eqn:Em.
+      * apply Hdel in Em as [_ Em]. rewrite Em. split; [intros [_ Hx]; discriminate|congruence].
+      * rewrite <- (wt_dom t W). split; [tauto|]. intros Hi. split; [exact Hi|].
+        destruct (f n) eqn:Ef; [|reflexivity]. rewrite <- Em. symmetry. apply Hdel. auto.
+    + intros n o.
+      match goal with |- t_patch (set_updated ?t0 (mark_deleted _ ?d)) n = _ -> _ =>
+        change (t_patch (set_updated t0 (mark_deleted (t_updated t) d)) n)
+          with (t_patch (set_updated t (mark_deleted (t_updated t) d)) n) end.
+      rewrite t_patch_mark_deleted. destruct (mem n _); [discriminate|apply W].
+  - now apply NoDup_filter.
+  - rewrite t_unapplied_set_updated, t_unapplied_set_lists. intros x Hx. apply in_or_app. now left.
+Qed.
+
+(* ---------------------------------------------------------------- push *)
+
+Definition same_lists (t t' : txn) : Prop :=
+  t_applied t' = t_applied t /\ t_unapplied t' = t_unapplied t /\ t_hidden t' = t_hidden t.
+
+Definition push_post (t : txn) (ns : list name) (t' : txn) : Prop :=
+  wf_txn t' /\ t_applied t' = t_applied t ++ ns
+  /\ t_hidden t' = filter (fun x => negb (mem x ns)) (t_hidden t)
+  /\ Permutation (t_all t') (t_all t).
+
+Lemma same_lists_all : forall t t', same_lists t t' -> t_all t' = t_all t.
+Proof. intros t t' [H1 [H2 H3]]. unfold t_all. congruence. Qed.
+
+Lemma push_post_lists : forall t t0 ns t',
+  same_lists t t0 -> push_post t0 ns t' -> push_post t ns t'.
+Proof.
+  intros t t0 ns t' Hs [H1 [H2 [H3 H4]]]. pose proof (same_lists_all _ _ Hs) as Ea.
+  destruct Hs as [E1 [E2 E3]]. unfold push_post. rewrite <- E1, <- E3, <- Ea. auto.
+Qed.
+
+Lemma move_wf : forall t n,
+  wf_txn t -> In n (t_all t) -> ~ In n (t_applied t) -> push_post t [n] (move_to_applied t n).
+Proof.
+  intros t n W Hn Ha.
+  pose proof (names_disjoint t (wt_names t W)) as [_ [Hdu [Hdh [_ Huh]]]].
+  assert (Hf1 : forall l, ~ In n l -> filter (fun x => negb (mem x [n])) l = l).
+  { intros l Hl. apply filter_all. intros x Hx. apply negb_mem_true. intros [->|[]]. contradiction. }
+  assert (Hf2 : forall l, NoDup l -> filter (fun x => negb (mem x [n])) l = remove_first n l).
+  { intros l Hl. rewrite remove_first_filter by exact Hl. apply filter_ext. intros x. cbn.
+    now rewrite orb_false_r. }
+  unfold move_to_applied, push_post. destruct (mem n (t_unapplied t)) eqn:Eu.
+  - apply mem_In in Eu.
+    assert (Hp : Permutation ((t_applied t ++ [n]) ++ remove_first n (t_unapplied t) ++ t_hidden t) (t_all t)).
+    { unfold t_all. rewrite <- app_assoc. apply Permutation_app_head. cbn.
+      rewrite app_comm_cons. apply Permutation_app_tail. now apply remove_first_perm. }
+    split; [now apply wf_txn_lists|]. split; [reflexivity|]. split; [|exact Hp].
+    rewrite t_hidden_set_lists. symmetry. apply Hf1. now apply Huh.
+  - destruct (mem n (t_hidden t)) eqn:Eh.
+    + apply mem_In in Eh.
+      assert (Hp : Permutation ((t_applied t ++ [n]) ++ t_unapplied t ++ remove_first n (t_hidden t)) (t_all t)).
+      { unfold t_all. rewrite <- app_assoc. apply Permutation_app_head. cbn.
+        eapply Permutation_trans; [apply Permutation_middle|]. apply Permutation_app_head.
+        now apply remove_first_perm. }
+      split; [now apply wf_txn_lists|]. split; [reflexivity|]. split; [|exact Hp].
+      rewrite t_hidden_set_lists. symmetry. now apply Hf2.
+    + exfalso. apply mem_false in Eu, Eh. apply in_all_cases in Hn. tauto.
+Qed.
+
+Lemma wf_txn_conflict_mode : forall t m, wf_txn t -> wf_txn (set_conflict_mode t m).
+Proof. intros t m W. apply (wf_txn_change t); try reflexivity; apply W. Qed.
+
+Lemma push_fin_wf : forall n t2 pc ptree tr np op st,
+  wf_txn t2 -> In n (t_all t2) -> ~ In n (t_applied t2) -> is_plain (t_objs t2) np ->
+  res_sat (push_post t2 [n]) (push_fin n t2 pc ptree tr np op st).
+Proof.
+  intros n t2 pc ptree tr np op st W Hn Ha Hnp. unfold push_fin.
+  assert (Hfin : forall t3, wf_txn t3 -> same_lists t2 t3 ->
+    res_sat (push_post t2 [n])
+      (match st with
+       | PSConflict => THalt (move_to_applied (set_conflict_mode t3 CAllow) n) HConflict
+       | _ => TOk (move_to_applied t3 n) end)).
+  { intros t3 W3 Hs. pose proof (same_lists_all _ _ Hs) as Ea.
+    assert (Hn3 : In n (t_all t3)) by now rewrite Ea.
+    assert (Ha3 : ~ In n (t_applied t3)) by (destruct Hs as [-> _]; exact Ha).
+    destruct st; cbn [res_sat].
+    - eapply push_post_lists; [exact Hs|]. now apply move_wf.
+    - eapply push_post_lists; [exact Hs|]. now apply move_wf.
+    - apply (move_wf (set_conflict_mode t3 CAllow) n); [now apply wf_txn_conflict_mode|exact Hn3|exact Ha3]. }
+  destruct (negb (tree_eqb tr ptree) || negb (Nat.eqb np op)).
+  - unfold recommit, put. cbv beta iota zeta.
+    set (c := plain [np] tr _ _).
+    assert (W1 : wf_txn (set_objs t2 (t_objs t2 ++ [c]))).
+    { apply wf_txn_put; [exact W|]. intros p [<-|[]]. exact Hnp. }
+    assert (Ho : is_patch_commit (t_objs t2 ++ [c]) (length (t_objs t2))) by apply patch_commit_new.
+    destruct st.
+    + apply Hfin; [|repeat split]. now apply (wf_txn_update _ n _ W1).
+    + apply Hfin; [|repeat split]. now apply (wf_txn_update _ n _ W1).
+    + apply Hfin; [|repeat split].
+      apply (wf_txn_update (set_head (set_objs t2 (t_objs t2 ++ [c])) (Some (length (t_objs t2)))) n);
+        [|exact Hn|exact Ho].
+      apply wf_txn_set_head; [exact W1|apply Ho].
+  - destruct st; apply Hfin; try exact W; repeat split.
+Qed.
+
+Lemma push_patch_wf : forall n am t,
+  wf_txn t -> In n (t_all t) -> ~ In n (t_applied t) ->
+  res_sat (push_post t [n]) (push_patch n am t).
+Proof.
+  intros n am t W Hn Ha. rewrite push_patch_eq.
+  destruct (t_patch t n) as [pc|]; [|exact I].
+  destruct (wf_top t W) as [np [-> Hnp]].
+  destruct (first_parent (t_objs t) pc) as [op|]; [|apply W].
+  pose proof (push_sel_spec am t pc op np) as S.
+  destruct (push_sel am t pc op np) as [[[t2 tr] st]|r].
+  - pose proof (wf_txn_core_eq _ _ S W) as W2.
+    destruct S as [_ [_ [E3 [E4 [E5 [_ [_ [_ E9]]]]]]]].
+    assert (Hs : same_lists t t2) by (repeat split; assumption).
+    eapply res_sat_impl; [apply push_fin_wf; auto|].
+    + now rewrite (same_lists_all _ _ Hs).
+    + now rewrite E3.
+    + now rewrite E9.
+    + intros t' Hp. eapply push_post_lists; [|exact Hp]. exact Hs.
+  - destruct r; try contradiction. cbn. now apply (wf_txn_core_eq t).
+Qed.
+
+Lemma filter_notin_cons : forall n ns (l : list name),
+  filter (fun x => negb (mem x ns)) (filter (fun x => negb (mem x [n])) l)
+  = filter (fun x => negb (mem x (n :: ns))) l.
+Proof.
+  intros n ns l. rewrite filter_filter. apply filter_ext. intros x. cbn.
+  rewrite orb_false_r. now rewrite negb_orb.
+Qed.
+
+Lemma push_list_wf : forall ns m t,
+  wf_txn t -> NoDup ns -> (forall n, In n ns -> In n (t_all t) /\ ~ In n (t_applied t)) ->
+  res_sat (push_post t ns) (push_list ns m t).
+Proof.
+  induction ns as [|n ns IH]; intros m t W Hd Hin; cbn [push_list].
+  - cbn. unfold push_post. rewrite app_nil_r. split; [exact W|]. split; [reflexivity|].
+    split; [|apply Permutation_refl]. symmetry. apply filter_all. reflexivity.
+  - inversion Hd as [|? ? Hnn Hd']; subst.
+    destruct (Hin n (or_introl eq_refl)) as [Hn Ha].
+    eapply res_sat_tbind; [apply push_patch_wf; auto|].
+    intros t1 [W1 [Ea [Eh Hp]]]. eapply res_sat_impl; [apply IH; auto|].
+    + intros x Hx. destruct (Hin x (or_intror Hx)) as [Hx1 Hx2]. split.
+      * eapply Permutation_in; [apply Permutation_sym; exact Hp|exact Hx1].
+      * rewrite Ea. intros Hi. apply in_app_or in Hi as [Hi|[<-|[]]]; contradiction.
+    + intros t' [W' [Ea' [Eh' Hp']]]. split; [exact W'|]. split; [|split].
+      * rewrite Ea', Ea, <- app_assoc. reflexivity.
+      * rewrite Eh', Eh. apply filter_notin_cons.
+      * eapply Permutation_trans; eassumption.
+Qed.
+
+Lemma wf_txn_set_tmp : forall t id c, wf_txn t -> wf_txn (set_tmp t id c).
+Proof. intros t id c W. apply (wf_txn_change t); try reflexivity; apply W. Qed.
+
+Lemma push_patches_wf : forall ns cm t,
+  wf_txn t -> NoDup ns -> (forall n, In n ns -> In n (t_all t) /\ ~ In n (t_applied t)) ->
+  res_sat (push_post t ns) (push_patches ns cm t).
+Proof.
+  intros ns cm t W Hd Hin. unfold push_patches. destruct cm.
+  - destruct (check_merged_loop _ _ _ _) as [[m c] id].
+    apply (push_list_wf ns m (set_tmp (set_tmp t None []) id c)); auto.
+    now do 2 apply wf_txn_set_tmp.
+  - apply (push_list_wf ns [] (set_tmp t None [])); auto. now apply wf_txn_set_tmp.
+Qed.
+
+Lemma not_applied_of_mem : forall t n,
+  names_ok (t_all t) -> mem n (t_unapplied t) || mem n (t_hidden t) = true -> ~ In n (t_applied t).
+Proof.
+  intros t n Hn E Ha. destruct (names_disjoint t Hn) as [_ [_ [_ [H _]]]].
+  destruct (H n Ha) as [H1 H2]. apply orb_true_iff in E as [E|E]; apply mem_In in E; contradiction.
+Qed.
+
+Lemma push_tree_wf : forall n t, wf_txn t -> good (push_tree n t).
+Proof.
+  intros n t W. unfold push_tree.
+  destruct (t_patch t n) as [pc|] eqn:Ep; [|exact I].
+  assert (Hn : In n (t_all t)) by (apply (wt_dom t W); congruence).
+  destruct (wf_top t W) as [top [-> Htop]].
+  destruct (first_parent (t_objs t) pc) as [par|]; [|apply W].
+  destruct (Nat.eqb par top).
+  - destruct (mem n (t_unapplied t) || mem n (t_hidden t)) eqn:E; [|exact I].
+    apply move_wf; [exact W|exact Hn|]. apply not_applied_of_mem; [apply W|exact E].
+  - unfold recommit, put. cbv beta iota zeta. set (c := plain [top] _ _ _).
+    match goal with |- good (if ?b then _ else _) => destruct b eqn:E end; [|exact I].
+    assert (W1 : wf_txn (set_objs t (t_objs t ++ [c]))).
+    { apply wf_txn_put; [exact W|]. intros p [<-|[]]. exact Htop. }
+    apply move_wf; [|exact Hn|].
+    + apply (wf_txn_update _ n _ W1); [exact Hn|apply patch_commit_new].
+    + apply (not_applied_of_mem t); [apply W|exact E].
+Qed.
+
+Lemma push_tree_list_wf : forall ns t, wf_txn t -> good (push_tree_list ns t).
+Proof.
+  induction ns as [|n ns IH]; intros t W; cbn [push_tree_list]; [exact W|].
+  eapply res_sat_tbind; [now apply push_tree_wf|]. intros t1 W1. now apply IH.
+Qed.
+
+(* ---------------------------------------------------------------- reorder *)
+
+Lemma mem_ext : forall x (a b : list name), (In x a <-> In x b) -> mem x a = mem x b.
+Proof.
+  intros x a b H. destruct (mem x a) eqn:E1, (mem x b) eqn:E2; try reflexivity.
+  - apply mem_In in E1. apply H in E1. apply mem_In in E1. congruence.
+  - apply mem_In in E2. apply H in E2. apply mem_In in E2. congruence.
+Qed.
+
+Lemma wf_txn_relist : forall t t',
+  wf_txn t ->
+  t_objs t' = t_objs t -> t_stack t' = t_stack t -> t_base_oid t' = t_base_oid t ->
+  t_head t' = t_head t -> t_updated t' = t_updated t ->
+  Permutation (t_all t') (t_all t) -> wf_txn t'.
+Proof.
+  intros t t' W E1 E2 E3 E4 E5 Hp.
+  assert (Ep : forall n, t_patch t' n = t_patch t n) by (intros n; unfold t_patch; now rewrite E5, E2).
+  apply (wf_txn_change t); auto.
+  - eapply names_ok_perm; [exact Hp|apply W].
+  - intros n. rewrite Ep, <- (wt_dom t W). split; apply Permutation_in; [exact Hp|now apply Permutation_sym].
+  - intros n o. rewrite Ep. apply W.
+Qed.
+
+Definition reorder_pre (a u h : option (list name)) (t : txn) : Prop :=
+  match a with
+  | Some al =>
+      NoDup al /\ incl al (t_all t) /\
+      exists ul, u = Some ul /\
+        Permutation (al ++ ul ++ match h with
+                                 | Some hl => hl
+                                 | None => filter (fun x => negb (mem x al)) (t_hidden t)
+                                 end) (t_all t)
+  | None =>
+      Permutation (t_applied t ++ (match u with Some ul => ul | None => t_unapplied t end)
+                     ++ (match h with Some hl => hl | None => t_hidden t end)) (t_all t)
+  end.
+
+Lemma reorder_wf : forall a u h t, wf_txn t -> reorder_pre a u h t -> good (reorder_patches a u h t).
+Proof.
+  intros a u h t W Hpre. unfold reorder_patches. destruct a as [al|]; cbn [reorder_pre] in Hpre.
+  - destruct Hpre as [Hdal [Hial [ul [-> Hperm]]]].
+    set (k := common_prefix_len (t_applied t) al).
+    pose proof (names_disjoint t (wt_names t W)) as [Hda [_ [_ [Hah _]]]].
+    destruct (pop_patches (fun n => mem n (skipn k (t_applied t))) t) as [t1 inc] eqn:Epop.
+    pose proof (pop_wf _ _ _ _ W Epop) as [W1 Hp1].
+    apply pop_spec in Epop as [keep [popped [Es [_ [Et1 _]]]]].
+    rewrite split_at_first_skipn in Es by exact Hda. injection Es as <- <-.
+    assert (Ea1 : t_applied t1 = firstn k al) by (rewrite Et1; apply cpl_firstn).
+    assert (Eh1 : t_hidden t1 = t_hidden t) by now rewrite Et1.
+    destruct (NoDup_firstn_skipn _ k al Hdal) as [_ [Hds Hdis]].
+    eapply res_sat_tbind.
+    + eapply res_sat_tbind; [apply (push_patches_wf (skipn k al) false t1 W1 Hds)|].
+      * intros x Hx. split.
+        -- eapply Permutation_in; [apply Permutation_sym; exact Hp1|]. apply Hial. eapply In_skipn; exact Hx.
+        -- rewrite Ea1. intros Hi. now apply (Hdis x Hi).
+      * intros t2 P2. destruct (list_name_eqb (t_applied t2) al); [|exact I]. exact P2.
+    + intros t2 [W2 [Ea2 [Eh2 Hp2]]]. cbn [res_sat].
+      rewrite Ea1, firstn_skipn in Ea2. rewrite Eh1 in Eh2.
+      assert (Eh2' : t_hidden t2 = filter (fun x => negb (mem x al)) (t_hidden t)).
+      { rewrite Eh2. apply filter_ext_in. intros x Hx. f_equal. apply mem_ext.
+        rewrite (firstn_skipn_In _ k al x). split; [tauto|]. intros [Hi|Hi]; [|exact Hi].
+        exfalso. unfold k in Hi. rewrite <- cpl_firstn in Hi. apply In_firstn in Hi.
+        destruct (Hah x Hi) as [_ Hn]. contradiction. }
+      assert (Hall : Permutation (t_all t2) (t_all t)) by (eapply Permutation_trans; eassumption).
+      destruct h as [hl|].
+      * apply (wf_txn_relist t2); try reflexivity; [exact W2|].
+        eapply Permutation_trans; [|apply Permutation_sym; exact Hall].
+        unfold t_all. rewrite !t_applied_set_lists, !t_unapplied_set_lists, !t_hidden_set_lists.
+        rewrite Ea2. exact Hperm.
+      * apply (wf_txn_relist t2); try reflexivity; [exact W2|].
+        eapply Permutation_trans; [|apply Permutation_sym; exact Hall].
+        unfold t_all. rewrite !t_applied_set_lists, !t_unapplied_set_lists, !t_hidden_set_lists.
+        rewrite Ea2, Eh2'. exact Hperm.
+  - cbn [tbind res_sat]. destruct u as [ul|], h as [hl|];
+      (apply (wf_txn_relist t); try reflexivity; try exact W; exact Hpre).
+Qed.
+
+(* ---------------------------------------------------------------- commit *)
+
+Lemma split_at_first_k : forall f (l : list name) k,
+  (forall x, In x (firstn k l) -> f x = false) ->
+  (forall y, hd_error (skipn k l) = Some y -> f y = true) ->
+  split_at_first f l = (firstn k l, skipn k l).
+Proof.
+  intros f l k H1 H2. unfold split_at_first. destruct (skipn k l) as [|y r] eqn:Es.
+  - assert (El : firstn k l = l).
+    { rewrite <- (firstn_skipn k l) at 2. rewrite Es. symmetry. apply app_nil_r. }
+    rewrite position_none'; [now rewrite El|]. rewrite <- El. exact H1.
+  - rewrite (position_char f l k y); [now rewrite Es|exact H1|now rewrite Es|].
+    apply H2. reflexivity.
+Qed.
+
+Definition commit_pre (tc : list name) (t : txn) : Prop :=
+  NoDup tc /\ incl tc (t_all t)
+  /\ (forall x, hd_error (skipn (common_prefix_len (t_applied t) tc) (t_applied t)) = Some x -> ~ In x tc).
+
+Lemma commit_wf : forall tc t, wf_txn t -> commit_pre tc t -> good (commit_patches tc t).
+Proof.
+  intros tc t W [Hdtc [Hitc Hhd]]. unfold commit_patches.
+  set (k := common_prefix_len (t_applied t) tc) in *.
+  pose proof (names_disjoint t (wt_names t W)) as [Hda _].
+  set (to_push := if Nat.ltb k (length tc)
+                  then filter (fun n => negb (mem n tc)) (skipn k (t_applied t)) else []).
+  assert (Htp : NoDup to_push /\ forall x, In x to_push -> In x (t_all t) /\ ~ In x tc).
+  { unfold to_push. destruct (Nat.ltb k (length tc)); [|split; [constructor|intros x []]].
+    split; [apply NoDup_filter; now apply NoDup_firstn_skipn|].
+    intros x Hx. apply filter_In in Hx as [Hx1 Hx2]. apply negb_mem_true in Hx2. split; [|exact Hx2].
+    apply in_all_cases. left. eapply In_skipn; exact Hx1. }
+  destruct Htp as [Hdtp Hintp].
+  eapply (res_sat_tbind (fun t2 => wf_txn t2 /\ Permutation (t_all t2) (t_all t)
+             /\ exists rest, t_applied t2 = tc ++ rest /\ forall x, In x to_push -> ~ In x rest)).
+  - unfold to_push in *. clear to_push. destruct (Nat.ltb k (length tc)) eqn:Elt.
+    + set (tp := filter (fun n => negb (mem n tc)) (skipn k (t_applied t))) in *.
+      destruct (pop_patches (fun n => mem n tp) t) as [t1 inc] eqn:Epop.
+      pose proof (pop_wf _ _ _ _ W Epop) as [W1 Hp1].
+      apply pop_spec in Epop as [keep [popped [Es [_ [Et1 _]]]]].
+      destruct (NoDup_firstn_skipn _ k (t_applied t) Hda) as [_ [_ Hdis]].
+      rewrite (split_at_first_k _ _ k) in Es.
+      * injection Es as <- <-.
+        assert (Ea1 : t_applied t1 = firstn k tc) by (rewrite Et1; apply cpl_firstn).
+        destruct (NoDup_firstn_skipn _ k tc Hdtc) as [_ [Hds Hdis2]].
+        eapply res_sat_tbind; [apply (push_patches_wf (skipn k tc) false t1 W1 Hds)|].
+        -- intros x Hx. split.
+           ++ eapply Permutation_in; [apply Permutation_sym; exact Hp1|]. apply Hitc. eapply In_skipn; exact Hx.
+           ++ rewrite Ea1. intros Hi. now apply (Hdis2 x Hi).
+        -- intros t2 [W2 [Ea2 [_ Hp2]]]. cbn [res_sat]. split; [exact W2|]. split.
+           ++ eapply Permutation_trans; eassumption.
+           ++ exists []. rewrite Ea2, Ea1, firstn_skipn, app_nil_r. split; [reflexivity|]. intros x _ [].
+      * intros x Hx. apply mem_false. unfold tp. rewrite filter_In. intros [Hi _]. now apply (Hdis x Hx).
+      * intros y Hy. apply mem_In. unfold tp. apply filter_In. split; [now apply hd_error_In|].
+        apply negb_mem_true. now apply Hhd.
+    + cbn [res_sat]. split; [exact W|]. split; [apply Permutation_refl|].
+      apply Nat.ltb_ge in Elt. pose proof (cpl_le (t_applied t) tc) as [Hle _]. fold k in Hle.
+      exists (skipn k (t_applied t)). split; [|intros x []].
+      rewrite <- (firstn_skipn k (t_applied t)) at 1. f_equal. unfold k. rewrite cpl_firstn. fold k.
+      apply firstn_all2. lia.
+  - intros t2 [W2 [Hp2 [rest [Ea2 Hrest]]]].
+    destruct (hd_error (rev tc)) as [lastn|] eqn:El; [|exact I].
+    apply last_error_In in El.
+    destruct (t_patch t2 lastn) as [nb|] eqn:Enb; [|exact I].
+    assert (Hnb : is_plain (t_objs t2) nb) by (now apply (wt_patch t2 W2) in Enb as [Hx _]).
+    pose proof (wf_txn_set_base t2 nb W2 Hnb) as W3.
+    match goal with |- res_sat _ (if ?b then _ else _) => destruct b end; [exact I|].
+    rewrite t_applied_set_updated, t_applied_set_base, t_unapplied_set_updated, t_unapplied_set_base,
+      t_hidden_set_updated, t_hidden_set_base.
+    assert (Esk : skipn (length tc) (t_applied t2) = rest).
+    { rewrite Ea2. rewrite skipn_app, skipn_all, Nat.sub_diag. reflexivity. }
+    rewrite Esk.
+    pose proof (wt_names t2 W2) as Hn2. unfold t_all in Hn2. rewrite Ea2, <- app_assoc in Hn2.
+    assert (Hdd : NoDup (tc ++ rest ++ t_unapplied t2 ++ t_hidden t2)) by apply Hn2.
+    apply NoDup_app_iff in Hdd as [_ [Hdr Hdisj]].
+    assert (Hall2 : forall n, In n (t_all t2) <-> In n tc \/ In n (rest ++ t_unapplied t2 ++ t_hidden t2)).
+    { intros n. unfold t_all. rewrite Ea2, <- app_assoc, in_app_iff. reflexivity. }
+    set (t4 := set_updated (set_base t2 (Some nb)) (mark_deleted (t_updated (set_base t2 (Some nb))) tc)).
+    assert (W5 : wf_txn (set_lists t4 rest (t_unapplied t2) (t_hidden t2))).
+    { apply (wf_txn_change (set_base t2 (Some nb))); try reflexivity; try exact W3.
+      - change (t_all (set_lists t4 rest (t_unapplied t2) (t_hidden t2)))
+          with (rest ++ t_unapplied t2 ++ t_hidden t2).
+        apply (names_ok_sub _ _ Hn2); [exact Hdr|]. intros x Hx. apply in_or_app. now right.
+      - intros n.
+        change (t_all (set_lists t4 rest (t_unapplied t2) (t_hidden t2)))
+          with (rest ++ t_unapplied t2 ++ t_hidden t2).
+        change (t_patch (set_lists t4 rest (t_unapplied t2) (t_hidden t2)) n)
+          with (t_patch (set_updated (set_base t2 (Some nb)) (mark_deleted (t_updated (set_base t2 (Some nb))) tc)) n).
+        rewrite t_patch_mark_deleted. change (t_patch (set_base t2 (Some nb)) n) with (t_patch t2 n).
+        destruct (mem n tc) eqn:Em.
+        + apply mem_In in Em. split; [|congruence]. intros Hi. exfalso. now apply (Hdisj n Em).
+        + apply mem_false in Em. rewrite <- (wt_dom t2 W2), Hall2. tauto.
+      - intros n o.
+        change (t_patch (set_lists t4 rest (t_unapplied t2) (t_hidden t2)) n)
+          with (t_patch (set_updated (set_base t2 (Some nb)) (mark_deleted (t_updated (set_base t2 (Some nb))) tc)) n).
+        rewrite t_patch_mark_deleted. destruct (mem n tc); [discriminate|].
+        change (t_patch (set_base t2 (Some nb)) n) with (t_patch t2 n). apply W2. }
+    eapply res_sat_impl; [apply (push_patches_wf to_push false _ W5 Hdtp)|intros t' P; apply P].
+    intros x Hx. destruct (Hintp x Hx) as [Hx1 Hx2]. split.
+    + change (In x (rest ++ t_unapplied t2 ++ t_hidden t2)).
+      assert (Hx3 : In x (t_all t2)) by (eapply Permutation_in; [apply Permutation_sym; exact Hp2|exact Hx1]).
+      apply Hall2 in Hx3 as [Hx3|Hx3]; [contradiction|exact Hx3].
+    + rewrite t_applied_set_lists. now apply Hrest.
+Qed.
+
+(* ---------------------------------------------------------------- new / uncommit / update *)
+
+Lemma wf_txn_add : forall t n o a u h,
+  wf_txn t -> names_ok (n :: t_all t) -> is_patch_commit (t_objs t) o ->
+  Permutation (a ++ u ++ h) (n :: t_all t) ->
+  wf_txn (set_updated (set_lists t a u h) (up_set (t_updated t) n (Some o))).
+Proof.
+  intros t n o a u h W Hn Ho Hp. apply (wf_txn_change t); try reflexivity; try exact W.
+  - change (t_all (set_updated (set_lists t a u h) (up_set (t_updated t) n (Some o)))) with (a ++ u ++ h).
+    eapply names_ok_perm; eassumption.
+  - intros m.
+    change (t_all (set_updated (set_lists t a u h) (up_set (t_updated t) n (Some o)))) with (a ++ u ++ h).
+    change (t_patch (set_updated (set_lists t a u h) (up_set (t_updated t) n (Some o))) m)
+      with (t_patch (set_updated t (up_set (t_updated t) n (Some o))) m).
+    rewrite t_patch_up_set.
+    assert (Hi : In m (a ++ u ++ h) <-> m = n \/ In m (t_all t)).
+    { split; intros Hx.
+      - apply (Permutation_in _ Hp) in Hx as [<-|Hx]; auto.
+      - apply (Permutation_in _ (Permutation_sym Hp)). destruct Hx as [->|Hx]; [now left|now right]. }
+    rewrite Hi. destruct (name_eqb_spec n m) as [<-|Hm].
+    + split; [discriminate|auto].
+    + rewrite <- (wt_dom t W). split; [intros [->|Hx]; [congruence|exact Hx]|auto].
+  - intros m o'.
+    change (t_patch (set_updated (set_lists t a u h) (up_set (t_updated t) n (Some o))) m)
+      with (t_patch (set_updated t (up_set (t_updated t) n (Some o))) m).
+    rewrite t_patch_up_set. destruct (name_eqb n m).
+    + intros E. injection E as <-. exact Ho.
+    + apply W.
+Qed.
+
+Lemma new_applied_wf : forall n o t,
+  wf_txn t -> names_ok (n :: t_all t) -> is_patch_commit (t_objs t) o -> good (new_applied n o t).
+Proof.
+  intros n o t W Hn Ho. unfold new_applied.
+  destruct (first_parent (t_objs t) o); [|exact I]. destruct (t_top t); [|exact I].
+  destruct (Nat.eqb _ _); [|exact I]. cbn [good res_sat]. apply wf_txn_add; auto.
+  unfold t_all. rewrite <- app_assoc. cbn. apply Permutation_sym. apply Permutation_middle.
+Qed.
+
+Lemma names_ok_tail : forall n l, names_ok (n :: l) -> names_ok l.
+Proof.
+  intros n l H. apply (names_ok_sub _ _ H).
+  - destruct H as [H _]. now inversion H.
+  - intros x Hx. now right.
+Qed.
+
+Lemma uncommit_gen : forall ps t a u h,
+  wf_txn t -> names_ok (map fst ps ++ t_all t) ->
+  (forall p, In p ps -> is_patch_commit (t_objs t) (snd p)) ->
+  Permutation (a ++ u ++ h) (map fst ps ++ t_all t) ->
+  wf_txn (set_updated (set_lists t a u h) (set_all ps (t_updated t))).
+Proof.
+  induction ps as [|[n o] ps IH]; intros t a u h W Hn Ho Hp.
+  - cbn in *. apply (wf_txn_relist t); try reflexivity; auto.
+  - cbn [map fst] in Hn, Hp.
+    assert (Hn1 : names_ok (n :: t_all t)).
+    { apply (names_ok_sub _ _ Hn).
+      - destruct Hn as [Hd _]. cbn in Hd. inversion Hd as [|? ? Hx Hd']; subst.
+        apply NoDup_app_iff in Hd' as [_ [Hd' _]]. constructor; [|exact Hd'].
+        intros Hi. apply Hx. apply in_or_app. now right.
+      - intros x [<-|Hx]; [now left|]. right. apply in_or_app. now right. }
+    set (t1 := set_updated (set_lists t (n :: t_applied t) (t_unapplied t) (t_hidden t))
+                           (up_set (t_updated t) n (Some o))).
+    assert (W1 : wf_txn t1).
+    { apply wf_txn_add; [exact W|exact Hn1|apply (Ho (n, o)); now left|reflexivity]. }
+    change (wf_txn (set_updated (set_lists t1 a u h) (set_all ps (t_updated t1)))).
+    apply IH; auto.
+    + change (t_all t1) with (n :: t_all t). eapply names_ok_perm; [|exact Hn].
+      apply Permutation_sym. apply Permutation_middle.
+    + intros p Hi. apply (Ho p). now right.
+    + change (t_all t1) with (n :: t_all t). eapply Permutation_trans; [exact Hp|]. apply Permutation_middle.
+Qed.
+
+Lemma uncommit_wf : forall ps t,
+  wf_txn t -> names_ok (map fst ps ++ t_all t) ->
+  (forall p, In p ps -> is_patch_commit (t_objs t) (snd p)) ->
+  good (uncommit_patches ps t).
+Proof.
+  intros ps t W Hn Ho. unfold uncommit_patches. cbn [good res_sat].
+  change (fold_left (fun u p => up_set u (fst p) (Some (snd p))) ps (t_updated t)) with (set_all ps (t_updated t)).
+  assert (H := uncommit_gen ps t (map fst ps ++ t_applied t) (t_unapplied t) (t_hidden t) W Hn Ho).
+  apply H. unfold t_all. now rewrite <- app_assoc.
+Qed.
+
+Lemma update_patch_wf : forall n o t,
+  wf_txn t -> is_patch_commit (t_objs t) o -> good (update_patch n o t).
+Proof.
+  intros n o t W Ho. unfold update_patch. destruct (t_patch t n) eqn:E; [|exact I].
+  cbn [good res_sat]. apply wf_txn_update; auto. apply (wt_dom t W). congruence.
+Qed.
+
+Lemma is_perm_of_perm : forall new old, is_perm_of new old = true -> Permutation new old.
+Proof.
+  induction new as [|n new IH]; intros old H; cbn in H.
+  - destruct old; [constructor|discriminate].
+  - apply andb_true_iff in H as [H1 H2]. apply mem_In in H1. apply IH in H2.
+    eapply Permutation_trans; [apply perm_skip; exact H2|]. now apply remove_first_perm.
+Qed.
+
+Lemma repair_appliedness_wf : forall a u h t, wf_txn t -> good (repair_appliedness a u h t).
+Proof.
+  intros a u h t W. unfold repair_appliedness. destruct (is_perm_of _ _) eqn:E; [|exact I].
+  cbn [good res_sat]. apply wf_txn_lists; [exact W|]. now apply is_perm_of_perm.
+Qed.
+
+(* ---------------------------------------------------------------- rename *)
+
+Lemma replace_first_perm : forall old new l,
+  In old l -> Permutation (old :: replace_first old new l) (new :: l).
+Proof.
+  intros old new. induction l as [|x l IH]; intros H; [destruct H|]. cbn.
+  destruct (name_eqb_spec x old) as [->|Hx]; [apply perm_swap|].
+  destruct H as [->|H]; [congruence|].
+  eapply Permutation_trans; [apply perm_swap|]. eapply Permutation_trans; [apply perm_skip, IH, H|].
+  apply perm_swap.
+Qed.
+
+Lemma rename_wf : forall old new t,
+  wf_txn t -> validate new = true -> ~ In new (t_all t) ->
+  (forall m, In m (t_all t) -> collides new m = true -> m = old) ->
+  good (rename_patch old new t).
+Proof.
+  intros old new t W Hv Hnew Hcol. unfold rename_patch.
+  destruct (name_eqb_spec new old) as [->|Hno]; [exact W|].
+  match goal with |- good (if ?b then _ else _) => destruct b end; [apply W|].
+  match goal with |- good (if ?b then _ else _) => destruct b end; [apply W|].
+  set (lists := if mem old (t_applied t) then _ else _).
+  assert (Hl : match lists with
+               | Some (a, u, h) => Permutation (old :: a ++ u ++ h) (new :: t_all t) /\ In old (t_all t)
+               | None => True end).
+  { unfold lists. destruct (mem old (t_applied t)) eqn:E1; [|destruct (mem old (t_unapplied t)) eqn:E2;
+      [|destruct (mem old (t_hidden t)) eqn:E3; [|exact I]]].
+    - apply mem_In in E1. split; [|apply in_all_cases; auto]. unfold t_all.
+      rewrite !app_comm_cons. apply Permutation_app_tail. now apply replace_first_perm.
+    - apply mem_In in E2. split; [|apply in_all_cases; auto]. unfold t_all.
+      eapply Permutation_trans; [apply Permutation_middle|].
+      eapply Permutation_trans; [|apply Permutation_sym, Permutation_middle].
+      apply Permutation_app_head. rewrite !app_comm_cons. apply Permutation_app_tail.
+      now apply replace_first_perm.
+    - apply mem_In in E3. split; [|apply in_all_cases; auto]. unfold t_all. rewrite !app_assoc.
+      eapply Permutation_trans; [apply Permutation_middle|].
+      eapply Permutation_trans; [|apply Permutation_sym, Permutation_middle].
+      apply Permutation_app_head. now apply replace_first_perm. }
+  destruct lists as [[[a u] h]|]; [|exact I]. destruct Hl as [Hp Hold].
+  assert (Hpo : exists o0, t_patch t old = Some o0).
+  { apply (wt_dom t W) in Hold. destruct (t_patch t old); [eauto|congruence]. }
+  destruct Hpo as [o0 Eo0].
+  assert (Eps : match up_get (t_updated t) old with
+                | Some (Some o) => Some o
+                | _ => pm_get (s_patches (t_stack t)) old end = Some o0).
+  { unfold t_patch in Eo0. destruct (up_get (t_updated t) old) as [[o|]|]; [exact Eo0|discriminate|exact Eo0]. }
+  rewrite Eps. cbn [good res_sat].
+  set (L := a ++ u ++ h) in *.
+  assert (HdL : NoDup (old :: L)).
+  { apply (Permutation_NoDup (Permutation_sym Hp)). constructor; [exact Hnew|apply W]. }
+  inversion HdL as [|? ? HoL HdL']; subst.
+  assert (HinL : forall m, In m L <-> m = new \/ (In m (t_all t) /\ m <> old)).
+  { intros m. split.
+    - intros Hm. assert (Hm' : In m (old :: L)) by now right.
+      apply (Permutation_in _ Hp) in Hm' as [<-|Hm']; [now left|]. right. split; [exact Hm'|].
+      intros ->. contradiction.
+    - intros [->|[Hm Hmo]].
+      + assert (Hx : In new (old :: L)) by (apply (Permutation_in _ (Permutation_sym Hp)); now left).
+        destruct Hx as [Hx|Hx]; [congruence|exact Hx].
+      + assert (Hx : In m (old :: L)) by (apply (Permutation_in _ (Permutation_sym Hp)); now right).
+        destruct Hx as [Hx|Hx]; [congruence|exact Hx]. }
+  pose proof (wt_names t W) as [_ [Hval Hc]]. rewrite Forall_forall in Hval.
+  apply (wf_txn_change t); try reflexivity; try exact W.
+  - change (t_all (set_updated (set_lists t a u h) _)) with L. split; [exact HdL'|]. split.
+    + apply Forall_forall. intros m Hm. apply HinL in Hm as [->|[Hm _]]; auto.
+    + intros x y Hx Hy Exy. apply HinL in Hx, Hy.
+      destruct Hx as [->|[Hx Hxo]], Hy as [->|[Hy Hyo]]; auto.
+      * exfalso. apply Hyo. now apply Hcol.
+      * exfalso. apply Hxo. apply Hcol; [exact Hx|]. now rewrite collides_sym.
+  - intros m. change (t_all (set_updated (set_lists t a u h) _)) with L.
+    rewrite t_patch_upd, !up_get_set. rewrite HinL.
+    destruct (name_eqb_spec new m) as [<-|Hnm]; [split; [discriminate|auto]|].
+    destruct (name_eqb_spec old m) as [<-|Hom].
+    + split; [intros [E|[_ E]]; congruence|congruence].
+    + change (match up_get (t_updated t) m with Some v => v | None => pm_get (s_patches (t_stack (set_lists t a u h))) m end)
+        with (t_patch t m). rewrite <- (wt_dom t W).
+      split; [intros [E|[Hm _]]; [congruence|exact Hm]|]. intros Hm. right. split; [exact Hm|congruence].
+  - intros m o'. rewrite t_patch_upd, !up_get_set.
+    destruct (name_eqb new m).
+    + intros E. injection E as <-. now apply (wt_patch t W old).
+    + destruct (name_eqb old m); [discriminate|]. apply (wt_patch t W m).
+Qed.
+
+(* ---------------------------------------------------------------- reset_to_state *)
+
+Lemma first_parent_plain : forall objs o b,
+  plain_closed objs -> is_plain objs o -> first_parent objs o = Some b -> is_plain objs b.
+Proof.
+  intros objs o b Hc Ho Hb. apply (Hc o b Ho). unfold first_parent in Hb. now apply hd_error_In.
+Qed.
+
+Lemma reset_wf : forall s t, wf_txn t -> wf_state (t_objs t) s -> good (reset_to_state s t).
+Proof.
+  intros s t W Hs. unfold reset_to_state.
+  destruct Hs as [Hsn [Hsk [Hsd [Hsp Hsh]]]].
+  match goal with |- good (match ?nb with Some _ => _ | None => _ end) =>
+    assert (Hb : forall b, nb = Some b -> is_plain (t_objs t) b); [|destruct nb as [b|]; [|apply W]] end.
+  { intros b E. destruct (s_applied s) as [|n l].
+    - injection E as <-. exact Hsh.
+    - destruct (pm_get (s_patches s) n) as [o|] eqn:Eo; [|discriminate].
+      apply Hsp in Eo as [Ho _]. eapply first_parent_plain; [apply W|exact Ho|exact E]. }
+  specialize (Hb b eq_refl). cbn [good res_sat].
+  set (u1 := fold_left _ (s_patches s) _).
+  assert (Ep : forall n, t_patch (set_updated t u1) n = pm_get (s_patches s) n).
+  { intros n. rewrite t_patch_upd. unfold u1.
+    change (fold_left (fun u p => up_set u (fst p) (Some (snd p))) (s_patches s)
+              (mark_deleted (t_updated t) (t_all t)))
+      with (set_all (s_patches s) (mark_deleted (t_updated t) (t_all t))).
+    rewrite up_get_set_all. destruct (pm_get (rev (s_patches s)) n) as [o|] eqn:E.
+    - apply pm_get_rev_In in E. symmetry. now apply In_pm_get.
+    - apply pm_get_rev_None in E. apply pm_get_None in E. rewrite E.
+      rewrite up_get_mark_deleted. destruct (mem n (t_all t)) eqn:Em; [reflexivity|].
+      apply mem_false in Em. rewrite (wt_dom t W) in Em.
+      change (match up_get (t_updated t) n with Some v => v | None => pm_get (s_patches (t_stack t)) n end)
+        with (t_patch t n). destruct (t_patch t n); [exfalso; apply Em; discriminate|reflexivity]. }
+  constructor.
+  - apply W.
+  - apply W.
+  - exact Hsn.
+  - intros n. change (t_patch _ n) with (t_patch (set_updated t u1) n). rewrite Ep. apply Hsd.
+  - intros n o. change (t_patch _ n) with (t_patch (set_updated t u1) n). rewrite Ep. apply Hsp.
+  - exact Hb.
+  - intros h E. injection E as <-. exact Hsh.
+Qed.
+
+(* ---------------------------------------------------------------- begin / execute *)
+
+Definition op_ok (op : opened) : Prop :=
+  Inv (op_world op)
+  /\ wf_state (w_objs (op_world op)) (op_state op)
+  /\ is_plain (w_objs (op_world op)) (op_base op).
+
+Lemma begin_wf : forall op o, op_ok op -> wf_txn (begin_txn op o).
+Proof.
+  intros op o [Hi [Hs Hb]]. apply Inv_iff in Hi as [Hok _].
+  pose proof Hs as [Hsn [Hsk [Hsd [Hsp Hsh]]]].
+  constructor; cbn; auto. discriminate.
+Qed.
+
+Lemma Inv_mk : forall objs br st p wt um b,
+  Inv' objs br st -> Inv (mkWorld objs br st p wt um b).
+Proof. intros. apply Inv_iff. assumption. Qed.
+
+Lemma exec_w0_inv : forall w t,
+  Inv w -> store_ok (t_objs t) -> store_extends (w_objs w) (t_objs t) -> Inv (exec_w0 w t).
+Proof.
+  intros w t Hi Hok He. apply Inv_iff in Hi. apply Inv_mk. eapply Inv'_ext; eauto.
+Qed.
+
+Lemma exec_logged_inv : forall w t w1 st1,
+  Inv w -> wf_txn t -> store_extends (w_objs w) (t_objs t) ->
+  exec_logged w t = Some (w1, st1) ->
+  Inv w1 /\ store_extends (t_objs t) (w_objs w1) /\ s_patches st1 = s_patches (t_stack t)
+  /\ NoDup (map fst (s_patches st1)).
+Proof.
+  intros w t w1 st1 Hi W He E. unfold exec_logged in E.
+  pose proof (exec_w0_inv w t Hi (wt_store t W) He) as Hi0.
+  pose proof (wt_stack t W) as [Hsn [Hsk [Hsd [Hsp Hsh]]]].
+  destruct (Nat.eqb _ _).
+  - injection E as <- <-. split; [exact Hi0|]. split; [apply store_extends_refl|]. split; [reflexivity|exact Hsk].
+  - unfold log_external_mods in E. destruct (w_stack (exec_w0 w t)) as [so|] eqn:Es; [|discriminate].
+    destruct (state_commit _ _ _) as [[objs' so']|] eqn:Ec; [|discriminate].
+    injection E as <- <-. apply Inv_iff in Hi0 as [Hok [Hbr Hst]]. cbn in Hok, Hbr, Ec.
+    apply state_commit_ok in Ec as [Hok' [He' Hs']]; [| exact Hok |].
+    + split; [|split; [exact He'|split; [reflexivity|exact Hsk]]]. apply Inv_mk. split; [exact Hok'|]. split.
+      * eapply is_plain_ext; eauto.
+      * eauto.
+    + split; [exact Hsn|]. split; [exact Hsk|]. split; [exact Hsd|]. split; [exact Hsp|exact Hbr].
+Qed.
+
+Lemma exec_body_inv : forall w t halted msg,
+  Inv w -> wf_txn t -> store_extends (w_objs w) (t_objs t) ->
+  Inv (fst (exec_body w t halted msg)).
+Proof.
+  intros w t halted msg Hi W He. unfold exec_body.
+  destruct (negb _); [exact Hi|].
+  destruct (wf_head_oid t W) as [th [-> Hth]].
+  destruct (exec_logged w t) as [[w1 st1]|] eqn:El.
+  - destruct (exec_logged_inv w t w1 st1 Hi W He El) as [Hi1 [He1 [Ep1 Hk1]]].
+    destruct (exec_co t th w1 st1) as [[wt' um']|[[wt' um'] x]].
+    + unfold exec_fin. destruct (w_stack w1) as [prev|] eqn:Es; [|exact Hi1].
+      destruct (state_commit _ _ _) as [[objs' so]|] eqn:Ec; [|exact Hi1].
+      apply Inv_iff in Hi1 as [Hok1 [Hbr1 _]].
+      apply state_commit_ok in Ec as [Hok' [He' Hs']]; [|exact Hok1|].
+      * assert (Hfin : forall x, Inv (mkWorld objs' (if o_set_head (t_opts t) then th else w_branch w1)
+                                     (Some so) (exec_prefs (w_prefs w1) (t_updated t)) wt' um' x)).
+        { intros x. apply Inv_mk. split; [exact Hok'|]. split; [|eauto].
+          destruct (o_set_head (t_opts t)).
+          - eapply is_plain_ext; [exact He'|]. eapply is_plain_ext; eauto.
+          - eapply is_plain_ext; eauto. }
+        destruct halted; apply Hfin.
+      * unfold exec_state. split; [|split; [|split; [|split]]]; cbn.
+        -- apply W.
+        -- apply NoDup_keys_apply. exact Hk1.
+        -- intros n. rewrite pm_get_apply, Ep1. apply (wt_dom t W).
+        -- intros n o. rewrite pm_get_apply, Ep1. intros E.
+           eapply is_patch_commit_ext; [exact He1|]. now apply (wt_patch t W n).
+        -- eapply is_plain_ext; eauto.
+    + cbn [fst]. apply Inv_iff in Hi1. now apply Inv_mk.
+  - cbn [fst]. apply exec_w0_inv; auto. apply W.
+Qed.
+
+Lemma execute_inv : forall w r msg,
+  Inv w -> good r ->
+  match r with
+  | TOk t | THalt t _ | TErr t => store_extends (w_objs w) (t_objs t)
+  | TPanic => True
+  end ->
+  Inv (fst (execute w r msg)).
+Proof.
+  intros w r msg Hi Hg He. rewrite execute_eq. destruct r as [t|t h|t|]; cbn in Hg.
+  - now apply exec_body_inv.
+  - now apply exec_body_inv.
+  - cbn [fst]. now apply exec_w0_inv.
+  - exact Hi.
+Qed.
+
+Lemma transact_inv : forall op o f msg,
+  op_ok op ->
+  (wf_txn (begin_txn op o) -> good (f (begin_txn op o))) ->
+  frame (begin_txn op o) (f (begin_txn op o)) ->
+  Inv (fst (transact op o f msg)).
+Proof.
+  intros op o f msg Hop Hg Hf. pose proof (begin_wf op o Hop) as W. specialize (Hg W).
+  destruct Hop as [Hi _]. unfold transact. destruct (negb (op_initialized op)).
+  - destruct (f (begin_txn op o)); exact Hi.
+  - apply execute_inv; [exact Hi|exact Hg|].
+    destruct (f (begin_txn op o)); cbn in *; try exact I; apply Hf.
+Qed.
